@@ -124,13 +124,14 @@ CHECKS = {
         watch=CLAUSES,
         cfg_extra="INVARIANT PhaseTracks\n",
         assumptions=[
-            "real code on both sides: the active's HASyncer (PushChange, broadcastToClients, /ha/sessions and /ha/sessions/stream handlers served by httptest over loopback), the standby's HASyncer (performFullSync, connectToStream incl. SSE parsing, handleSSEData), both InMemorySessionStores",
+            "real code on both sides: the active's HASyncer (PushChange, broadcastToClients, /ha/sessions and /ha/sessions/stream handlers served by a real net/http server), the standby's HASyncer (performFullSync, connectToStream incl. SSE parsing, handleSSEData), both InMemorySessionStores",
             "the harness plays the active's session manager (store mutation, then PushChange), the broadcast goroutine (body of broadcastLoop run synchronously per change, hook VerifBroadcastPending), the standby's reconnect loop (full sync, then attach - as standbyLoop does) and the network (an http.RoundTripper installed as http.DefaultTransport hands the stream to the standby one event per 'deliver' and can cut it)",
             "a Read on the stream body is the barrier that tells the harness the standby has processed what it was given; an expected stream event that does not arrive within 10 s counts as never sent (confirmed by the replay on fresh objects)",
             "session content is abstracted to a version (1/2, 9 = anything else); tables are id -> version, 0 = absent; 2-4 session ids",
             "cutting the stream loses the events received from the active but not yet handed to the standby (deliver-then-cut is a different schedule of the same alphabet)",
+            "tables and random chains run net/http over in-memory pipe connections (tens of thousands of node pairs would exhaust the ephemeral TCP ports); the end-to-end chains (e2e#i) use two Start()ed syncers - real listener on a loopback TCP port, real broadcastLoop and standbyLoop with reconnect backoff shortened to 5-20 ms by reflection - and are judged only at quiescent points (stream attached by the standby's own loop, a marker change pushed last has been processed, or 30 s of quiet have passed)",
             "tables are explored to a depth bound (not closed: the undelivered queue is unbounded)",
-            "not covered: the standbyLoop/broadcastLoop goroutines themselves, reconnect backoff, TLS, the 100-message per-client channel overflow",
+            "not covered: TLS, the 100-message per-client channel overflow, the production backoff values",
         ],
         explanation="HaSync.tla (contract) restates the three sentences; HaSyncDesign shows the third follows from the first two exactly when no change falls between full sync and "
                     "attachment; HaSyncShape models the protocol as coded (original: TLC finds the surviving deleted session and the change lost between full-sync reply and stream "
@@ -145,10 +146,10 @@ MANIFEST = {
         text="TLC decides it three times: (1) the structure of the property is model-checked (convergence follows from full-sync equality and in-order application iff the "
              "reconnect is atomic); (2) an implementation-shaped TLA+ model of the sync protocol is model-checked and its counterexamples are replayed on the real code; "
              "(3) all add/update/delete histories over 2-3 session ids interleaved with full-sync, attach, deliver and disconnect steps (breadth-first with state fingerprints, "
-             "depth 5-7 quick / 6-9 thorough) and long random schedules over 4 ids are executed on a real active/standby HASyncer pair over loopback HTTP and walked by TLC "
-             "with the contract as monitor, every clause at every step.",
+             "depth 8/7/6 for 2/3/4 ids quick, 11/9/8 thorough), long random schedules over 4 ids, and end-to-end runs of two started syncers over loopback TCP are executed "
+             "on the real active/standby HASyncer pair and walked by TLC with the contract as monitor, every clause at every step.",
         technique="TLA+ contract + TLC over transition tables/traces of the real HASyncer pair (scheduled network) + design-counterexample replay",
-        note="trusted: the harness' network shim (event-at-a-time delivery, read barrier), the session-content abstraction, TLC. The standbyLoop/broadcastLoop goroutines "
-             "are played by the harness step by step.",
+        note="trusted: the harness' network shim (event-at-a-time delivery, read barrier), the session-content abstraction, TLC. In the tables the standbyLoop/broadcastLoop goroutines "
+             "are played by the harness step by step; they run for real in the end-to-end chains.",
     ),
 }
